@@ -106,17 +106,26 @@ pub fn probe_flags(out: &str, cal: &Calib) -> Vec<(u32, String)> {
 #[derive(Clone, Copy)]
 struct Plan {
     entries: u32,
+    kernel_entries: u32,
     flags: u32,
     maxlen: usize,
     chain_upto: usize,
     warm: u64,
 }
 
+/// Rounds of a chained batch: 3*ring, and at least enough for 2*K+2 entries (K = SQ slots the kernel
+/// allocated) to pass through the ring within this one case, so that every slot index 0..K — also those
+/// beyond a non-power-of-two requested size — carries a real, checked submission.
 fn rounds_for(p: &Plan, len: usize) -> u32 {
-    if len <= p.chain_upto {
-        3 * p.entries
+    if len > p.chain_upto {
+        return 1;
+    }
+    let k = p.kernel_entries as usize;
+    let cover = ((2 * k + 2) + len - 1) / len;
+    if p.entries <= 8 {
+        (3 * p.entries).max(cover as u32)
     } else {
-        1
+        cover as u32
     }
 }
 
@@ -160,15 +169,23 @@ pub fn run(args: &Args) -> Report {
     let th = args.thorough;
     let mut plans: Vec<Plan> = Vec::new();
     let sizes: &[u32] = if th { &[1, 2, 4, 8] } else { &[1, 2, 4] };
+    // requested sizes that are not powers of two: the kernel rounds the queue up, the wrapper must serve all of it
+    let odd_sizes: &[u32] = if th { &[3, 5, 6, 7, 12, 100] } else { &[3, 5, 6, 7] };
+    let kern = |e: u32| ops_raw::kernel_ring_entries(e).map(|x| x.0).unwrap_or_else(|| e.next_power_of_two());
+    if usable.contains(&0) {
+        for &e in odd_sizes {
+            plans.push(Plan { entries: e, kernel_entries: kern(e), flags: 0, maxlen: if th { 3 } else { 2 }, chain_upto: 2, warm: if th { 100 } else { 0 } });
+        }
+    }
     if usable.contains(&0) {
         for &e in sizes {
             // thorough: length 4 on the ring of 4 entries (the ring is completely filled); the ring of 8 stays at length 3
             let l = if th && e == 4 { 4 } else { 3 };
-            plans.push(Plan { entries: e, flags: 0, maxlen: (e as usize).min(l), chain_upto: if th { 3 } else { 2 }, warm: if th { 100 } else { 0 } });
+            plans.push(Plan { entries: e, kernel_entries: kern(e), flags: 0, maxlen: (e as usize).min(l), chain_upto: if th { 3 } else { 2 }, warm: if th { 100 } else { 0 } });
         }
     }
     for &b in usable.iter().filter(|&&b| b != 0) {
-        plans.push(Plan { entries: 4, flags: b, maxlen: if th { 3 } else { 2 }, chain_upto: if th { 2 } else { 1 }, warm: if th { 100 } else { 0 } });
+        plans.push(Plan { entries: 4, kernel_entries: kern(4), flags: b, maxlen: if th { 3 } else { 2 }, chain_upto: if th { 2 } else { 1 }, warm: if th { 100 } else { 0 } });
     }
 
     let ns = SYMS.len();
@@ -233,7 +250,7 @@ pub fn run(args: &Args) -> Report {
          Each (ring size, flags, mode, sequence) is generated exactly once; every case is non-trivial (it submits at least one entry and compares it with the direct call)."
     );
     r.bound("alphabet", SYMS.iter().map(|s| s.name).collect::<Vec<_>>());
-    r.bound("plans", plans.iter().map(|p| json!({"ring": p.entries, "flags": flags_name(p.flags), "max_len": p.maxlen, "chained_up_to_len": p.chain_upto, "warm_up_submissions": p.warm})).collect::<Vec<_>>());
+    r.bound("plans", plans.iter().map(|p| json!({"ring": p.entries, "kernel_ring_entries": p.kernel_entries, "rounds_len1": rounds_for(p, 1), "rounds_len2": rounds_for(p, 2), "flags": flags_name(p.flags), "max_len": p.maxlen, "chained_up_to_len": p.chain_upto, "warm_up_submissions": p.warm})).collect::<Vec<_>>());
     r.bound("cases_planned", n_cases_planned);
     r.bound("shards", n_items);
     r.note(format!("wall {:.1}s", t0.elapsed().as_secs_f64()));
@@ -272,6 +289,18 @@ fn shard_body(tag: &str, p: Plan, linked: bool, cal: &Calib, each: impl FnOnce(&
         let c = Case { entries: p.entries, flags: p.flags, linked, batch, rounds };
         run_case(&mut sh, &mut rs, &c, cal, &mut r, false);
     });
+    if rs.kernel_entries != p.kernel_entries {
+        r.cap(format!("shard {tag}: kernel ring size {} differs from the planned {}", rs.kernel_entries, p.kernel_entries));
+    }
+    // slot coverage: consecutive submissions use consecutive slot indices (mod K), so K+2 submissions on one
+    // ring visit every slot
+    if rs.rings_made == 1 {
+        if rs.submitted < (rs.kernel_entries + 2) as u64 {
+            r.cap(format!("shard {tag}: only {} submissions went through its ring of {} slots", rs.submitted, rs.kernel_entries));
+        } else {
+            r.outcome("ring:every-slot-index-used");
+        }
+    }
     drop(rs);
     sh.finish();
     r
